@@ -2,6 +2,7 @@ import CfbVerif.Spec.Consts
 import CfbVerif.Dir.Iter
 import CfbVerif.Dir.Listing
 import CfbVerif.Raw.Read
+import CfbVerif.Phys.WalkBack
 /-!
 # C04 — any valid layout written by another implementation is read correctly
 
@@ -20,6 +21,12 @@ What a layout can vary, and the theorem that makes the reader's answer independe
 * the *placement* of a stream's sectors: the bytes read through a chain depend only on the contents
   of the chain's sectors in chain order, not on where in the file they are
   (`C04_chain_placement_independent`).
+* the *directory table itself*: whatever slots the entries occupy, whatever the shapes and (within
+  the mode's rule) colourings of the sibling trees, the reader's validation accepts the table
+  (`C04_validate_any_layout`), its path resolution finds exactly the entries the tree holds
+  (`C04_lookup_any_layout`) and its iterator yields the tree's pre-order (`C04_walk_any_layout`) —
+  the three are statements about *any* table that represents *any* tree (`Phys.DfsOk`), not about
+  tables this library wrote;
 Whether `open` accepts every legal layout and decodes the tables as laid out is decided by the
 correspondence: synthesised layouts (independent writer in the harness) are opened by the library in
 both modes, by the `Raw` reader model and judged by `Spec.check`; then mutated through the API.
@@ -131,6 +138,53 @@ theorem C04_chain_placement_independent (img1 img2 : Img) (S : Nat) (ids1 ids2 :
       | some b => exact ih _ _
     · have hk2 : ¬ off / S < ids2.size := hlen ▸ hk
       rw [Array.getElem?_eq_none (by omega), Array.getElem?_eq_none (by omega)]
+
+/-! ### the directory table of any writer -/
+
+/-- **`Directory::validate` accepts any table that represents a tree**, in any slots, of any shape,
+with any colouring that has no red node with a red sibling-child (strict) or any colouring at all
+(permissive) -/
+theorem C04_validate_any_layout (m : Raw.Mode) (T : Array DirEntry) (top : Tree) (d0 : DirEntry)
+    (h0 : T[0]? = some d0) (hty : d0.objType = Gen.OBJ_TYPE_ROOT) (hl : d0.left = NOSTREAM) (hr : d0.right = NOSTREAM)
+    (hc : d0.child = Phys.lnk top) (hlen : d0.streamLen % Gen.MINI_SECTOR_LEN = 0)
+    (ok : Phys.DfsOk T m.isStrict top) (nd : top.slots.Nodup) : validateDir m T = .ok () :=
+  Phys.validateDir_accepts m T top d0 h0 hty hl hr hc hlen ok nd
+
+/-- **path resolution over any such table finds what the tree holds**: the slot of the entry the
+name chain leads to, by the tree's own search (`Tree.find?` per name), and nothing otherwise -/
+theorem C04_lookup_any_layout (r : RawState) (strict : Bool) (names : List Name) (t : Tree) (id : Nat) (d : DirEntry)
+    (ok : Phys.DfsOk r.dir strict t) (hsz : t.size + 1 ≤ r.dir.size + 1) (hd : r.dir[id]? = some d)
+    (hc : d.child = Phys.lnk t) : lookup r names id = .ok (Phys.resolveSlot t names id) :=
+  Phys.lookup_tree r strict names t id d ok hsz hd hc
+
+/-- **the iterator over any such table yields the root and then the tree's pre-order** (every
+storage directly followed by its subtree, siblings in name order) -/
+theorem C04_walk_any_layout (r : RawState) (strict : Bool) (top : Tree) (d0 : DirEntry)
+    (h0 : r.dir[Gen.ROOT_STREAM_ID]? = some d0) (hty : d0.objType = Gen.OBJ_TYPE_ROOT) (hc : d0.child = Phys.lnk top)
+    (ok : Phys.DfsOk r.dir strict top) (hsz : top.size + 1 ≤ r.dir.size) :
+    Raw.walk r = .ok (([Raw.slash], Gen.ROOT_STREAM_ID) :: Phys.emit [Raw.slash] top) :=
+  Phys.walk_table r strict top d0 h0 hty hc ok hsz
+
+/-- non-vacuity: a red-black-coloured balanced tree in scattered slots is represented by its table
+(so the three theorems apply to it) -/
+example :
+    let ent := fun (name : Nat) (red : Bool) (l r : Nat) =>
+      ({ left := l, right := r, child := NOSTREAM, name := [name], objType := Gen.OBJ_TYPE_STREAM, red := red, clsid := Raw.nilClsid, stateBits := 0, ctime := 0, mtime := 0, startSector := END, streamLen := 0 } : DirEntry)
+    let root : DirEntry := { left := NOSTREAM, right := NOSTREAM, child := 5, name := Raw.rootName, objType := Gen.OBJ_TYPE_ROOT, red := false, clsid := Raw.nilClsid, stateBits := 0, ctime := 0, mtime := 0, startSector := END, streamLen := 0 }
+    let un : DirEntry := { left := NOSTREAM, right := NOSTREAM, child := NOSTREAM, name := [], objType := 0, red := true, clsid := Raw.nilClsid, stateBits := 0, ctime := 0, mtime := 0, startSector := 0, streamLen := 0 }
+    -- slots: 5 = "b" (black, root of the sibling tree), 2 = "a" (red), 7 = "c" (red); 1,3,4,6 unallocated
+    let T : Array DirEntry := #[root, un, ent 97 true NOSTREAM NOSTREAM, un, un, ent 98 false 2 7, un, ent 99 true NOSTREAM NOSTREAM]
+    let e := fun (s n : Nat) (black : Bool) => (⟨s, [n], true, black, Meta.blank, []⟩ : Entry)
+    let top := Tree.node (.node .leaf (e 2 97 false) .leaf .leaf) (e 5 98 true) .leaf (.node .leaf (e 7 99 false) .leaf .leaf)
+    Phys.DfsOk T true top := by
+  refine ⟨⟨trivial, trivial, trivial, by decide, by decide, ⟨_, rfl, rfl, rfl, rfl, rfl, rfl, rfl⟩, fun _ => rfl,
+      (fun _ h => by cases h), (fun _ h => by cases h), fun _ _ => ⟨rfl, rfl⟩⟩,
+    trivial,
+    ⟨trivial, trivial, trivial, by decide, by decide, ⟨_, rfl, rfl, rfl, rfl, rfl, rfl, rfl⟩, fun _ => rfl,
+      (fun _ h => by cases h), (fun _ h => by cases h), fun _ _ => ⟨rfl, rfl⟩⟩,
+    by decide, by decide, ⟨_, rfl, rfl, rfl, rfl, rfl, rfl, rfl⟩, fun _ => rfl, ?_, ?_, fun _ h => by cases h⟩
+  · intro x hx; cases hx; decide +kernel
+  · intro x hx; cases hx; decide +kernel
 
 /-- non-vacuity: a balanced and a degenerate tree over the same three names -/
 example :
